@@ -31,7 +31,7 @@ COMPONENTS = {'real': ['compiled enspara.info_theory.libinfo (unmodified generat
 ASSUMPTIONS = ['at least one frame per trajectory (zero frames is outside the statement)',
                'state counts >= 2 per feature for channel-capacity normalisation (the routine asserts it)',
                'floating tolerances for the algebraic laws: 1e-9 absolute / relative']
-REACH_EXPECTED = ['long_trajectory', 'team_ge_2', 'one_thread_per_feature', 'different_feature_counts', 'different_state_counts',
+REACH_EXPECTED = ['weighted_many_states_narrow_type', 'views_sharing_first_element', 'long_trajectory', 'team_ge_2', 'one_thread_per_feature', 'different_feature_counts', 'different_state_counts',
                   'mixed_dtypes', 'self_counts', 'invalid_negative', 'invalid_too_large', 'invalid_length', 'invalid_mixed_dtypes', 'pooled_trajectories',
                   'weighted_uniform', 'relabel_invariance', 'permutation_invariance', 'schedule_pair_compared']
 INTS = ('int8', 'int16', 'int32', 'int64', 'uint8', 'uint16', 'uint32', 'uint64')
@@ -157,6 +157,15 @@ def valid(ctx, t):
         ctx.hit('mixed_dtypes')
     Al = layout(ctx, t, A, ('C', 'C', 'F', 'strided', 'neg', 'offset'))
     Bl = Al if self_mode else layout(ctx, t, B, ('C', 'C', 'F', 'strided', 'neg', 'offset'))
+    if not self_mode and dta == dtb and fa == fb and t.flag(1, 5):
+        # two different views of ONE buffer that start at the same element: X = P[:, :f], Y = P[:, ::2][:, :f]
+        Pbuf = np.zeros((nfr, 2 * fa), dtype=dta)
+        Pbuf[:, :fa] = A
+        Pbuf[:, fa:] = B
+        Pbuf %= np.asarray(min(na, nb), dtype=dta)      # both views must stay inside both state counts
+        Al, Bl = Pbuf[:, :fa], Pbuf[:, ::2][:, :fa]
+        A, B = np.array(Al), np.array(Bl)
+        ctx.hit('views_sharing_first_element')
     mode = t.draw(6, 'gomp')
     if mode == 1:
         T = fa
@@ -244,6 +253,18 @@ def laws(ctx, t, mi, entropy, A, B, jc, na, nb, self_mode, wna, wnb):
                     (np.asarray(W).tolist(), I.tolist()))
             ctx.postcond('weighted_uniform_equals_unweighted')
             ctx.hit('weighted_uniform')
+    # the weighted estimator on narrow element types with many states (uniform weights: equals the unweighted estimator)
+    if self_mode and t.flag(1, 3):
+        k2 = t.choice((12, 16, 20))
+        dt2 = t.choice(('uint8', 'int8', 'uint16', 'int16'))
+        n2 = t.irange(2, 40)
+        A2 = gen_features(t, n2, t.irange(1, 3), k2, dt2)
+        I2 = ctx.sut(mi.mutual_information, ctx.sut(mi.joint_counts, A2, None, k2))
+        W2 = ctx.sut(mi.weighted_mi, A2, np.full(n2, 1.0 / n2), np.full(A2.shape[1], k2), False)
+        require(close(W2, np.clip(I2, 0, None), 1e-8), 'weighted_mi_differs', lambda: 'weighted_mi (uniform weights, %s, %d states) %s vs MI %s' %
+                (dt2, k2, np.asarray(W2).tolist(), np.asarray(I2).tolist()))
+        ctx.postcond('weighted_uniform_equals_unweighted')
+        ctx.hit('weighted_many_states_narrow_type')
     # relabelling states and permuting frames leave MI unchanged
     if t.flag():
         pa, pb = np.array(t.perm(wna)), np.array(t.perm(wnb))
